@@ -491,6 +491,32 @@ class Result:
     pass
 
 
+NEIGHBOUR_ADDR = ("10.0.0.5", 30490)
+
+
+def _neighbour(sim, ncfg):
+    """a second, independent SD stack in the same process (another interface, another address family): it offers a
+    service of its own with short cyclic offers and answers whoever asks; nothing of it may show up in the node's traffic"""
+    ctx, tag = sim.new_context("M")
+
+    def build():
+        timings = sd.Timings(**ncfg.get("timings", {}))
+        prot = sd.ServiceDiscoveryProtocol(GROUP, timings=timings)
+        prot.transport = core.SimTransport(sim, "M", NEIGHBOUR_ADDR, actor="M")
+        au = sd.DatagramProtocolAdapter(prot, is_multicast=False)
+        am = sd.DatagramProtocolAdapter(prot, is_multicast=True)
+        sim.open_socket("M", NEIGHBOUR_ADDR, "u", au.datagram_received, ctx, tag, actor="M")
+        sim.open_socket("M", NEIGHBOUR_ADDR, "m", am.datagram_received, ctx, tag, group=GROUP, actor="M")
+        svc = config.Service(0x7A7A, 1, 1, 0, eventgroups=frozenset([1]))
+        inst = sd.ServiceInstance(svc, sd.ServerServiceListener(), prot.announcer, timings)
+        prot.announcer.announce_service(inst)
+        sim.keep.append(prot)
+        return prot
+
+    prot = ctx.run(build)
+    sim.at(ncfg.get("start_at", 0.0), "op", (ctx, prot.start, ("M", "call", -1, "start", ())))
+
+
 def execute(plan):
     """run one plan; returns Result(log, stats, sim, errors...)"""
     lib.reset()
@@ -506,6 +532,8 @@ def execute(plan):
     }
     sim = core.new_sim(plan["seed"], simcfg)
     st = Stack(sim, cfg)
+    if cfg.get("neighbour"):
+        _neighbour(sim, cfg["neighbour"])
     rogues = [Rogue(a) for a in PEERS]
     alt_rogues = {}
     op_exc = []
@@ -544,6 +572,8 @@ def execute(plan):
                 for m in op["msgs"]
             ) + bytes.fromhex(op.get("tail", ""))
             src = rogues[op["p"]].addr if "port" not in op else (rogues[op["p"]].addr[0], op["port"])
+            if "src" in op:
+                src = tuple(op["src"])  # any sockaddr, e.g. the 4-tuple of an IPv6 (or IPv4-mapped) peer
             sim.inject(t, src, SVC_ADDR, op["ch"], data)
         elif k == "preboot":
             rogues[op["p"]].reset()
